@@ -72,6 +72,12 @@ impl Controller for StaticResourceController {
                     return false
                 }
 
+                // a directory called index.html is not an index page
+                let boxed_index_md = metadata(&index_html_in_directory);
+                if boxed_index_md.is_err() || !boxed_index_md.unwrap().is_file() {
+                    return false
+                }
+
                 is_directory_with_index_html = true;
             }
         }
